@@ -1,6 +1,7 @@
 SPECIFICATION Spec
 CONSTANTS
   MaxB = 2
+  MinW = 1
   MaxW = 1
   NFiles = 1
   SecondHandle = FALSE
